@@ -32,6 +32,25 @@ def check(run: Run) -> None:
     _k5(run, w)  # the any-dimension predicate itself (shared with C04): exactly {0, +oo, -oo, NaN}, magnitude independent
     info = run_collector_rules(run, w, CE, "_split_numeric_and_symbolic")
     mod, h = info["mod"], info["handlers"]
+    # leaves that carry a declared dimension: objects with a `dimension` attribute, and the ELEMENTS p[i] of an indexed symbol (sympy.Indexed has no such
+    # attribute: its dimension is that of its base)
+    ent = next((f_ for f_ in mod.tree.body if isinstance(f_, ast.FunctionDef) and f_.name == "collect_expression_and_dimension"), None)
+    if ent is None:
+        raise AnalysisError("C06: collect_expression_and_dimension not found")
+    run.ob("S2", f"{mod.name}:leaf:Indexed")
+    idx_ok = False
+    for t_ in [x for x in ast.walk(ent) if isinstance(x, ast.If)]:
+        if any(isinstance(c_, ast.Call) and dotted(c_.func) == "isinstance" and len(c_.args) == 2 and "Indexed" in {(dotted(e_) or "").split(".")[-1]
+               for e_ in (c_.args[1].elts if isinstance(c_.args[1], ast.Tuple) else [c_.args[1]])} for c_ in ast.walk(t_.test)):
+            for r_ in [x for st_ in t_.body for x in ast.walk(st_) if isinstance(x, ast.Return) and x.value is not None]:
+                txt = norm(r_.value, 200)
+                if "base" in txt and "dimension" in txt:
+                    idx_ok = True
+    handled_in_table = any(k in h for k in ("Indexed", ))
+    if not (idx_ok or handled_in_table):
+        run.violate("S2", f"{mod.name}:leaf:Indexed", mod, ent,
+                    "the symbolic collector has no case for sympy.Indexed: the element p[i] of an indexed symbol falls through to the dimensionless default, so a sum over "
+                    "elements of a pressure is inferred as a number (p[1] + 1 accepted, p[1] + p[2] - p_total refused)")
     if any(k not in h for k in ("Mul", "Add", "Pow", "Derivative", "Min", "Max")):
         return  # a missing dispatch entry is reported by S2; the handler-specific rules have nothing to look at
     # S1 (second half): every part of the split reaches the returned dimension / value
